@@ -30,6 +30,13 @@ type CutSpec struct {
 	// Track: extra values whose phis the path search resolves per path
 	// (phis feeding branch conditions and return operands always are).
 	Track []ssa.Value
+	// Event counting (R-ONCE): EventInstr / EventEdge mark "events" along a
+	// path; a path on which more than MaxEvents events occur is a violation
+	// (reported at the offending instruction / phi). EventEdge is asked for
+	// every phi assignment performed by a taken CFG edge.
+	EventInstr func(in ssa.Instruction, res resolver) bool
+	EventEdge  func(phi *ssa.Phi, incoming ssa.Value) bool
+	MaxEvents  int
 }
 
 type cutState struct {
@@ -38,6 +45,53 @@ type cutState struct {
 	envMap map[*ssa.Phi]ssa.Value
 	parent *cutState
 	from   int // index of the first instruction to process in b
+	// pins: nil-ness of parameters established by an edge taken earlier on
+	// this path. Parameters are never reassigned in SSA, so the fact holds
+	// for the rest of the path.
+	pins   string
+	events int
+}
+
+// pinOf: if the facts of an edge fix the nil-ness of a parameter, return
+// "name=nil" / "name=nonnil".
+func pinsOf(fs []Fact) []string {
+	var out []string
+	for _, f := range fs {
+		if p, ok := f.X.(*ssa.Parameter); ok && (f.Op == "nil" || f.Op == "nonnil") {
+			out = append(out, p.Name()+"="+f.Op)
+		}
+	}
+	return out
+}
+
+func addPins(old string, add []string) string {
+	for _, a := range add {
+		if !strings.Contains(";"+old+";", ";"+a+";") {
+			if old == "" {
+				old = a
+			} else {
+				parts := append(strings.Split(old, ";"), a)
+				sort.Strings(parts)
+				old = strings.Join(parts, ";")
+			}
+		}
+	}
+	return old
+}
+
+// pinContradicts: an edge whose facts contradict a pinned parameter fact is infeasible.
+func pinContradicts(pins string, fs []Fact) bool {
+	if pins == "" {
+		return false
+	}
+	for _, f := range fs {
+		if p, ok := f.X.(*ssa.Parameter); ok && (f.Op == "nil" || f.Op == "nonnil") {
+			if strings.Contains(";"+pins+";", ";"+p.Name()+"="+negOp[f.Op]+";") {
+				return true
+			}
+		}
+	}
+	return false
 }
 
 type CutResult struct {
@@ -191,8 +245,22 @@ func RunCut(sp *CutSpec) CutResult {
 	}
 	for _, b := range fn.Blocks {
 		for _, in := range b.Instrs {
-			if sp.Target(in, idRes) {
+			if sp.Target != nil && sp.Target(in, idRes) {
 				r.Targets++
+			}
+			if sp.EventInstr != nil && sp.EventInstr(in, idRes) {
+				r.Targets++
+			}
+		}
+		if sp.EventEdge != nil {
+			for _, in := range b.Instrs {
+				if phi, ok := in.(*ssa.Phi); ok {
+					for _, e := range phi.Edges {
+						if sp.EventEdge(phi, e) {
+							r.Targets++
+						}
+					}
+				}
 			}
 		}
 	}
@@ -200,7 +268,7 @@ func RunCut(sp *CutSpec) CutResult {
 	seen := map[string]bool{}
 	var queue []*cutState
 	push := func(st *cutState) {
-		k := fmt.Sprint(st.b.Index) + "|" + st.env
+		k := fmt.Sprint(st.b.Index, "|", st.events) + "|" + st.env + "|" + st.pins
 		if seen[k] {
 			return
 		}
@@ -223,10 +291,10 @@ func RunCut(sp *CutSpec) CutResult {
 				continue
 			}
 			for si := 0; si < 2; si++ {
-				if anyFact(condFacts(ifi.Cond, si == 0, idRes), sp.Start) {
+				if fs := condFacts(ifi.Cond, si == 0, idRes); anyFact(fs, sp.Start) {
 					em := enter(tr, nil, b, b.Succs[si], si)
 					r.Starts++
-					push(&cutState{b: b.Succs[si], envMap: em, env: envKey(em), parent: &cutState{b: b}})
+					push(&cutState{b: b.Succs[si], envMap: em, env: envKey(em), parent: &cutState{b: b}, pins: addPins("", pinsOf(fs))})
 				}
 			}
 		}
@@ -239,14 +307,24 @@ func RunCut(sp *CutSpec) CutResult {
 			return r
 		}
 		stopped := false
+		ev := st.events
+		violate := func(at ssa.Instruction) CutResult {
+			r.Violated = true
+			r.At = at
+			for p := st; p != nil; p = p.parent {
+				r.Path = append([]*ssa.BasicBlock{p.b}, r.Path...)
+			}
+			return r
+		}
 		for _, in := range st.b.Instrs[st.from:] {
-			if sp.Target(in, st.res) {
-				r.Violated = true
-				r.At = in
-				for p := st; p != nil; p = p.parent {
-					r.Path = append([]*ssa.BasicBlock{p.b}, r.Path...)
+			if sp.Target != nil && sp.Target(in, st.res) {
+				return violate(in)
+			}
+			if sp.EventInstr != nil && sp.EventInstr(in, st.res) {
+				ev++
+				if ev > sp.MaxEvents {
+					return violate(in)
 				}
-				return r
 			}
 			if sp.Barrier != nil && sp.Barrier(in) {
 				stopped = true
@@ -256,6 +334,38 @@ func RunCut(sp *CutSpec) CutResult {
 		if stopped {
 			continue
 		}
+		// take one CFG edge
+		take := func(si int, pins string) *CutResult {
+			succ := st.b.Succs[si]
+			e2 := ev
+			if sp.EventEdge != nil {
+				nth := 0
+				for i := 0; i < si; i++ {
+					if st.b.Succs[i] == succ {
+						nth++
+					}
+				}
+				if pi := predIndex(succ, st.b, nth); pi >= 0 {
+					for _, in := range succ.Instrs {
+						phi, ok := in.(*ssa.Phi)
+						if !ok {
+							break
+						}
+						if sp.EventEdge(phi, phi.Edges[pi]) {
+							e2++
+							if e2 > sp.MaxEvents {
+								res := violate(phi)
+								res.Path = append(res.Path, succ)
+								return &res
+							}
+						}
+					}
+				}
+			}
+			em := enter(tr, st.envMap, st.b, succ, si)
+			push(&cutState{b: succ, envMap: em, env: envKey(em), parent: st, pins: pins, events: e2})
+			return nil
+		}
 		last := st.b.Instrs[len(st.b.Instrs)-1]
 		switch t := last.(type) {
 		case *ssa.If:
@@ -264,15 +374,21 @@ func RunCut(sp *CutSpec) CutResult {
 				if known && val != (si == 0) {
 					continue
 				}
-				if sp.Cut != nil && anyFact(condFacts(t.Cond, si == 0, st.res), sp.Cut) {
+				fs := condFacts(t.Cond, si == 0, st.res)
+				if pinContradicts(st.pins, fs) {
 					continue
 				}
-				em := enter(tr, st.envMap, st.b, st.b.Succs[si], si)
-				push(&cutState{b: st.b.Succs[si], envMap: em, env: envKey(em), parent: st})
+				if sp.Cut != nil && anyFact(fs, sp.Cut) {
+					continue
+				}
+				if res := take(si, addPins(st.pins, pinsOf(fs))); res != nil {
+					return *res
+				}
 			}
 		case *ssa.Jump:
-			em := enter(tr, st.envMap, st.b, st.b.Succs[0], 0)
-			push(&cutState{b: st.b.Succs[0], envMap: em, env: envKey(em), parent: st})
+			if res := take(0, st.pins); res != nil {
+				return *res
+			}
 		}
 	}
 	return r
